@@ -1,8 +1,8 @@
 """C11 — multithreaded compression under every schedule of the bound."""
 RULE = ('drivers D1 (3 jobs, one e_end call), D2 (continue/flush/continue/end with 7-byte output), D3 (LDM + checksum, 6 jobs), D4 (overlapLog x prefix/CDict), '
-        'D5 (level changed between jobs), D6 (frame abandoned after k calls by reset or free, then a new frame), D10 (abandoned, then a frame with more workers), D9 (worker count changed between frames) run the real '
+        'D5 (level changed between jobs), D6 (frame abandoned after k calls by reset or free, then a new frame), D10 (abandoned, then a frame with more workers), D12 (flush carrying new input while every worker is busy), D9 (worker count changed between frames) run the real '
         'ZSTD_compressStream2 + zstdmt + pool code with 1 KiB jobs under the deterministic scheduler; every schedule with <= P preemptions and <= D deviations is executed; '
-        'oracles: terminates, frame decodes to the input (library + reference decoder, checksum), completed flush decodable, one output per subject; '
+        'plus two seam harnesses that call the serial-section functions (jobs arriving in every order, with an error-path job skipping ahead) and its buffer / cctx pools directly from 2-5 threads under EVERY schedule (state cache, no bound); oracles: terminates, frame decodes to the input (library + reference decoder, checksum), completed flush decodable, one output per subject; '
         'distinct = distinct (output, switch count); non-trivial = more than 4 thread switches')
 SRC = ['harness/c11_mt.c', 'ref/edu_decoder.c']
 ENG = ['engine/vsched.c']
@@ -11,11 +11,14 @@ ENG = ['engine/vsched.c']
 def run(vc, tier):
     c = vc.Check('C11', tier, 'model_checking', RULE)
     kw = dict(engine_srcs=ENG)
-    plan = [(2, 2, 2), (3, 2, 2), (4, 1, 2), (5, 2, 2), (9, 1, 2), (10, 1, 1), (1, 2, 3), (6, 1, 2)] if tier == 'quick' else [(2, 2, 3), (3, 2, 3), (4, 2, 3), (5, 2, 3), (9, 2, 2), (10, 1, 2), (1, 3, 3), (6, 2, 2)]
+    plan = [(2, 2, 2), (3, 2, 2), (4, 1, 2), (5, 2, 2), (12, 2, 2), (9, 1, 2), (10, 1, 1), (1, 2, 2), (6, 1, 2)] if tier == 'quick' else [(2, 2, 3), (3, 2, 3), (4, 2, 3), (5, 2, 3), (12, 2, 3), (9, 2, 2), (10, 1, 2), (1, 3, 3), (6, 2, 2)]
     left = len(plan)
     for drv, P, D in plan:
         c.run_vx_unit('c11-d%d' % drv, SRC, 'sched-asan', ['--driver', drv, '--P', P, '--D', D, '--exec-timeout', 20000], share=1.0 / left, **kw)
         left -= 1
+    # narrowest seams, no preemption bound (state cache): serial section ticket protocol, buffer / cctx pools
+    for seam in (0, 1):
+        c.run_vx_unit('c11-seam%d' % seam, ['harness/c11_seams.c', 'ref/edu_decoder.c'], 'sched-asan', ['--seam', seam, '--maxjobs', 3 if tier == 'quick' else 4, '--exec-timeout', 20000], engine_srcs=ENG, exclude=('zstdmt_compress.c',), share=0.5)
     c.states = sum(r.done.get('executions', 0) for _, r, _ in c.units)
     c.transitions = sum(r.stats.get('sched_points', 0) for _, r, _ in c.units)
     c.extra['blocking_waits'] = sum(r.stats.get('blocking_waits', 0) for _, r, _ in c.units)
